@@ -143,6 +143,40 @@ def norm_label(lab, ids):
     return lab
 
 
+def record_problems(deck, t4):
+    """Provenance records of the written volumes (C05: 'the volume records (filler cell, container cell) in its
+    comment').  For a volume generated through k levels of FILL the comment holds k records; every record must name
+    the cell the volume was generated from as its filler, and the containers must be the chain of filled cells
+    from the innermost container up to a level-0 cell.  Decks with LIKE or LAT cells are not examined (generated
+    cell numbers).  Deck-model based and concrete: used on the symbolic path and in the replay alike."""
+    if any(c.like is not None or c.lat for c in deck.cells):
+        return []
+    cells = {c.id: c for c in deck.cells}
+    out = []
+    for vid, v in sorted(t4.vols.items()):
+        if v.fictive:
+            continue
+        prov = v.provenance()
+        if not prov:
+            continue
+        if any(f not in cells or c not in cells for f, c in prov):
+            continue
+        fillers = set(f for f, _c in prov)
+        if len(fillers) != 1:
+            out.append('volume %d: provenance records %s name different filler cells' % (vid, prov))
+            continue
+        chain = [prov[0][0]] + [c for _f, c in prov]           # filler, innermost container, ..., level-0 container
+        for inner, outer in zip(chain, chain[1:]):
+            if not isinstance(cells[outer].fill, int) or (cells[inner].u or 0) != cells[outer].fill:
+                out.append('volume %d: provenance records %s: cell %d is not in the universe that fills cell %d'
+                           % (vid, prov, inner, outer))
+                break
+        else:
+            if (cells[chain[-1]].u or 0) != 0:
+                out.append('volume %d: provenance records %s do not end at a level-0 cell' % (vid, prov))
+    return out
+
+
 def offsurface(rf):
     cons = []
     seen = set()
@@ -183,6 +217,15 @@ def compare(deck, path, pre, prop, flags=None, what=('regions', 'compo', 'valid'
             v = make_violation(deck, prop, base, path, None, 'validate', 'written file is not valid: %s' % '; '.join(pb[:4]),
                                flags, sig={'kind': 'structure', 'problem': pb[0].split(' ')[0]})
             (res['violations'] if v else res['inconclusive']).append(v or 'structure: %s' % pb[0])
+        else:
+            res['discharged'] += 1
+    if 'records' in what:
+        res['obligations'] += 1
+        pb = record_problems(deck, t4)
+        if pb:
+            v = make_violation(deck, prop, base, path, None, 'validate', 'provenance records: %s' % '; '.join(pb[:3]),
+                               flags, sig={'kind': 'records'}, extra_case={'text_checks': [{'what': 'provenance_records'}]})
+            (res['violations'] if v else res['inconclusive']).append(v or 'records: %s' % pb[0])
         else:
             res['discharged'] += 1
     if 'regions' not in what:
@@ -284,7 +327,7 @@ def robust(cons, ev, timeout_ms):
     return m if r == 'sat' else None
 
 
-def make_violation(deck, prop, base, path, model, kind, text, flags, sig=None):
+def make_violation(deck, prop, base, path, model, kind, text, flags, sig=None, extra_case=None):
     """Concretise with the model, write a replay case, replay it on the unpatched converter."""
     if model is None:
         r, model = check_sat(base + path.band_constraints(), 20000)
@@ -302,6 +345,8 @@ def make_violation(deck, prop, base, path, model, kind, text, flags, sig=None):
     case = {'kind': kind if kind != 'deck' else 'deck', 'property': prop, 'deck': dtext, 'deck_model': jd,
             'lattice': list(deck.lattice_opt), 'flags': {k: v for k, v in (flags or {}).items() if not isinstance(v, SymReal)},
             'point': [dec(env.get(nm, Fraction(0))) for nm in POINT_NAMES]}
+    if extra_case:
+        case.update(extra_case)
     if flags and isinstance(flags.get('max_inline_score'), SymReal):
         case['flags']['max_inline_score'] = float(flags['max_inline_score'].r.evalf(_Env(env)))
     d = replay_dir(prop, case)
